@@ -362,6 +362,11 @@ def mech_for(kind, iface, cfgname, spec, flags, exc=None, probe=None):
             obs_params = any(m["kind"] != "probs" and m["obs"][0] in ("herm", "sum", "proj") for m in spec["meas"])
             if nonstandard_wires(spec) and (nontr or obs_params):
                 return "adjoint:map_to_standard_wires-resets-trainable"
+        if base.startswith(("had", "hadamard_grad")) and spec.get("batch") and kind == "crash":
+            # hadamard_grad admits a broadcast (non-trainable) parameter (it only refuses trainable ones: assert_no_trainable_tape_batching)
+            # but its post-processing stacks/reshapes results without the broadcast axis; the exception type and frame depend on the
+            # interface, the mode and the measurement, the cause does not
+            return "hadamard-grad:broadcast-tape:postprocessing-crash"
         if base.startswith(PS_FAMILY) or base == "best":
             if kind == "wrong" and any(m["kind"] == "var" and m["obs"][0] == "sum" for m in spec["meas"]):
                 return "ps-var:sum-observable-treated-as-involutory"
